@@ -302,6 +302,20 @@ def checkpoint_misc_cases(rng):
     except Exception as ex:
         rec("non-differentiable positional arguments", False, repr(ex))
     try:
+        # a checkpointed function that picks up a traced value from a closure: the plain function's derivative, or a refusal
+        xs_ = onp.array([1.0, 2.0])
+        for nm, mk in (("same level", lambda fn: grad(lambda w: anp.sum(fn(lambda h: anp.tanh(h * w))(w * xs_)))(0.5)),
+                       ("outer level", lambda fn: grad(lambda w: grad(lambda v: anp.sum(fn(lambda h: anp.tanh(h * w))(v * xs_)))(0.25))(0.5)),
+                       ("same level, second order", lambda fn: grad(grad(lambda w: anp.sum(fn(lambda h: h * h * w)(w * xs_))))(0.5))):
+            want = mk(lambda f_: f_)
+            try:
+                got = mk(checkpoint)
+                rec("closure over a traced value, " + nm, (not isbox(got)) and abs(float(got) - float(want)) < 1e-12, [repr(got), float(want)])
+            except TypeError:
+                rec("closure over a traced value, " + nm, True, "refused")
+    except Exception as ex:
+        rec("closure over a traced value", False, repr(ex))
+    try:
         # second derivatives where the first-order cotangent reaching the checkpointed function is exactly zero
         f = lambda z: z * z * z + 2.0 * z  # noqa: E731
         cf = checkpoint(f)
